@@ -91,13 +91,15 @@ func (p *MACPayload) UnmarshalBinary(uplink bool, data []byte) error {
 	if dataLen > 7+int(p.FHDR.FCtrl.fOptsLen) {
 		fPort := uint8(data[7+int(p.FHDR.FCtrl.fOptsLen)])
 		p.FPort = &fPort
+
+		// this mirrors the check in MarshalBinary (also when the FRMPayload is empty)
+		if fPort == 0 && p.FHDR.FCtrl.fOptsLen > 0 {
+			return errors.New("lorawan: FPort must not be 0 when FOpts are set")
+		}
 	}
 
 	// decode the rest of the payload (if present)
 	if dataLen > 7+int(p.FHDR.FCtrl.fOptsLen)+1 {
-		if p.FPort != nil && *p.FPort == 0 && p.FHDR.FCtrl.fOptsLen > 0 {
-			return errors.New("lorawan: FPort must not be 0 when FOpts are set")
-		}
 
 		// even when FPort = 0, we store the mac-commands within a DataPayload.
 		// only after decryption we're able to unmarshal them.
